@@ -71,6 +71,13 @@ theorem witness_facts :
     inflight (run witness) = [1] ∧ (run witness).queue = [] ∧ (run witness).pushedSC = [1, 2] ∧
     (run witness).pushedXC = [2] ∧ (run witness).reusedSpent = true := by decide
 
+/-- A second, transient way to lose the cluster from the XDSConfig (finding F21), without any reuse of
+    a spent clusterInfo: an update built by the dependency manager before the resolver subscribed to
+    cluster 1 is applied after an RPC was routed to it. -/
+theorem stale_snapshot_counterexample :
+    let s := run [.rds [1], .rds [3], .deliver, .select 8 1, .deliver]
+    inflight s = [1] ∧ s.pushedSC = [1, 3] ∧ s.pushedXC = [3] ∧ s.reusedSpent = false := by decide
+
 /-- Clause 3 is violated: after RPC 2 commits nothing refers to cluster 1 any more and nothing is
     pending, yet it stays in the service config (unsubscribe is a no-op, no update is triggered). -/
 theorem dropped_after_last_reference_counterexample :
